@@ -508,7 +508,16 @@ func (lh *LightHouse) QueryServer(vpnAddr netip.Addr) {
 		return
 	}
 
-	lh.queryChan <- vpnAddr
+	select {
+	case lh.queryChan <- vpnAddr:
+	default:
+		// The queue is full: wait for the query worker to make room, unless we are shutting down and it is gone.
+		// Callers include the handshake manager's timer tick, which must be able to finish after Stop.
+		select {
+		case lh.queryChan <- vpnAddr:
+		case <-lh.ctx.Done():
+		}
+	}
 }
 
 func (lh *LightHouse) QueryCache(vpnAddrs []netip.Addr) *RemoteList {
